@@ -107,6 +107,36 @@ def conv_table(ix, key):
     return out, b
 
 
+def conv_table_by_cases(ix, key):
+    """The same table read off by walking the conversion once per variant (`kind as usize`, a lookup array, nested
+    matches): {variant: the one constant returned}."""
+    from . import cases
+    b = ix.body(key)
+    ty = b.locals[1]["ty"].lstrip("&").replace("mut ", "")
+    adt = ix.adts.get(ty)
+    out = {}
+    if adt is None or adt["kind"] != "Enum":
+        return out, b
+    for v in adt["variants"]:
+        payloads = [[]]
+        for f in v["fields"]:
+            fa = ix.adts.get(f["ty"])
+            if fa is not None and fa["kind"] == "Enum" and all(not w["fields"] for w in fa["variants"]):
+                payloads = [p + [cases.enum_val(ix, f["ty"], w["name"])] for p in payloads for w in fa["variants"]]
+            else:
+                payloads = [p + [("unknown", f["name"])] for p in payloads]
+        got = set()
+        for pl in payloads:
+            run = cases.run(ix, b, {b.local_name(1): cases.enum_val(ix, ty, v["name"], pl)})
+            rets = [p for p in run.paths if p.end == "return"]
+            if run.overflow or len(rets) != 1 or any(p.end not in ("return", "panic", "unreachable") for p in run.paths):
+                got.add(None)
+                continue
+            got.add(ceval(rets[0].ret))
+        out[v["name"]] = next(iter(got)) if len(got) == 1 else None
+    return out, b
+
+
 def rule_injective(ctx):
     ix = ctx.ix
     adt = ix.adt(ZTABLE)
@@ -117,6 +147,8 @@ def rule_injective(ctx):
                       ("board::ply::castling::<impl std::convert::From<board::ply::castling::CastlingKind> for usize>::from", 4),
                       ("board::piece::<impl std::convert::From<board::piece::Color> for usize>::from", 2)):
         t, b = conv_table(ix, key)
+        if len(t) != want or any(v is None for v in t.values()):
+            t, b = conv_table_by_cases(ix, key)
         ctx.functions.add(key)
         vals = sorted(v for v in t.values() if v is not None)
         ctx.check(len(t) == want and vals == list(range(want)), "%s:injective-onto-range" % key.split("From<")[1].split(">")[0].split("::")[-1],
